@@ -21,7 +21,7 @@
    value becomes a fresh one-chunk stream; loadChannels; restoreTasks: the pending tasks get fresh
    input streams), closes the input it was called with (56b8ed6) and continues with the main loop.
 
-   The interrupt configuration (interruptBeforeNodes / interruptAfterNodes), the graph, the passes of
+   The interrupt configuration (interruptBeforeNodes / interruptAfterNodes), the graph, the batches of
    every call with the tasks that interrupted themselves, and the branch outcomes are the inputs;
    whether and how a pass interrupts is computed.  Executable definitions only. *)
 From Eino Require Import Base.Util Model.StreamAcct Model.StreamRun.
@@ -31,9 +31,10 @@ Record icfg := { i_before : list key; i_after : list key }.
 Definition icfg0 : icfg := {| i_before := []; i_after := [] |}.
 
 (* one call of runner.run as the task-manager trace shows it: the batches wait() / waitAll() returned,
-   and which of the collected tasks ended with an interrupt of their own (InterruptAndRerun, or a
+   each with those of its tasks that ended with an interrupt of their own (InterruptAndRerun, or a
    nested graph that was interrupted) *)
-Record seg := { sg_b : list batch; sg_rr : list key }.
+Definition rbatch : Type := batch * list key.
+Definition seg : Type := list rbatch.
 
 (* getHitKey(nextTasks, r.interruptBeforeNodes) is not empty *)
 Definition hit_before (cfg : icfg) (ready : list (key * handle)) : bool :=
@@ -74,18 +75,19 @@ Definition first_pass (g : graph) (cfg : icfg) (b : batch) (st : rstate) : res p
         Ok (PNext (set_store st4 s))
   end.
 
-(* one pass of the main loop.  [rest]: the batches recorded after this one in the same call — when the
-   pass interrupts they are the tasks collected by waitAll; [rr]: the tasks of this call that
-   interrupted themselves *)
-Definition pass (g : graph) (cfg : icfg) (rr : list key) (b : batch) (rest : list batch) (st : rstate) : res pout :=
-  let b2 := List.concat rest in
+(* one pass of the main loop on the batch [b] wait() returned, [rr] those of its tasks that interrupted
+   themselves.  [rest]: the batches recorded after this one in the same call — when the pass
+   interrupts they are the tasks collected by waitAll *)
+Definition pass (g : graph) (cfg : icfg) (rr : list key) (b : batch) (rest : list rbatch) (st : rstate) : res pout :=
+  let b2 := List.concat (map fst rest) in
+  let rr2 := List.concat (map snd rest) in
   match reruns_of rr b with
   | _ :: _ =>
       (* graph_run.go:301-328: waitAll, then handleInterruptWithSubGraphAndRerunNodes *)
       if negb (batch_fits g b (rs_pending st)) then Err E_BAD_SCHEDULE else
       if negb (fits_all b2 (remove_keys (map fst b) (rs_pending st))) then Err E_BAD_SCHEDULE else
-      do st' <- resolve_phases g (others_of rr (b ++ b2)) st;
-      Ok (PEnd (SInt [] (reruns_of rr (b ++ b2)) st'))
+      do st' <- resolve_phases g (others_of rr b ++ others_of rr2 b2) st;
+      Ok (PEnd (SInt [] (reruns_of rr b ++ reruns_of rr2 b2) st'))
   | [] =>
       do r <- calc_next g b st;
       let '(ready1, st4) := r in
@@ -98,11 +100,11 @@ Definition pass (g : graph) (cfg : icfg) (rr : list key) (b : batch) (rest : lis
       | None =>
           if hit_before cfg ready1 || hit_after cfg b then
             if negb (fits_all b2 (remove_keys (map fst ready1) (rs_pending st4))) then Err E_BAD_SCHEDULE else
-            match reruns_of rr b2 with
+            match reruns_of rr2 b2 with
             | _ :: _ =>
                 (* :351-372: the tasks created by the first round stay pending with their inputs *)
-                do st5 <- resolve_phases g (others_of rr b2) st4;
-                Ok (PEnd (SInt ready1 (reruns_of rr b2) st5))
+                do st5 <- resolve_phases g (others_of rr2 b2) st4;
+                Ok (PEnd (SInt ready1 (reruns_of rr2 b2) st5))
             | [] =>
                 do r2 <- calc_body g b2 st4;
                 let '(ready2, st5) := r2 in
@@ -119,13 +121,13 @@ Definition pass (g : graph) (cfg : icfg) (rr : list key) (b : batch) (rest : lis
   end.
 
 (* the main loop of one call *)
-Fixpoint seg_loop (g : graph) (cfg : icfg) (rr : list key) (bs : list batch) (st : rstate) : res sout :=
+Fixpoint seg_loop (g : graph) (cfg : icfg) (bs : seg) (st : rstate) : res sout :=
   match bs with
   | [] => Ok (SRunning st)
-  | b :: rest =>
+  | (b, rr) :: rest =>
       do p <- pass g cfg rr b rest st;
       match p with
-      | PNext st' => seg_loop g cfg rr rest st'
+      | PNext st' => seg_loop g cfg rest st'
       | PEnd o => Ok o
       end
   end.
@@ -182,7 +184,7 @@ Fixpoint calls (g : graph) (cfg : icfg) (tms : list seg) (n : nat) (st : rstate)
   match tms with
   | [] => Ok (SRunning st, n, [])
   | tm :: more =>
-      do o <- seg_loop g cfg (sg_rr tm) (sg_b tm) st;
+      do o <- seg_loop g cfg tm st;
       match o with
       | SInt ready rr st5 =>
           match more with
@@ -210,7 +212,7 @@ Definition run_one (g : graph) (cfg : icfg) (start : batch) (tms : list seg) : r
       match tms with
       | [] => Ok (SRunning st', 1%nat, [])
       | tm :: more =>
-          do o <- seg_loop g cfg (sg_rr tm) (sg_b tm) st';
+          do o <- seg_loop g cfg tm st';
           match o with
           | SInt ready rr st5 =>
               match more with
